@@ -1,4 +1,45 @@
-"""C01 extra phase: coverage-guided inputs over the reference-decoder oracle (thorough)."""
+"""C01 extra phases (thorough): oracle cross-check against tomllib; coverage-guided inputs."""
+import json
+import os
+import subprocess
+import sys
+from concurrent.futures import ThreadPoolExecutor
+
+
+def crosscheck(run, binary, drv, chunks=16, per=20000):
+    """DESIGN.md 3.6: the reference decoder R and Python's tomllib on generated, mutated and
+    near-miss texts. tomllib judges R, never the code under test: a disagreement outside tomllib's
+    known deviations is an oracle alarm (INCONCLUSIVE), not a violation."""
+    outdir = os.path.join(drv.WORK, "C01-crosscheck")
+    os.makedirs(outdir, exist_ok=True)
+
+    def one(k):
+        f = os.path.join(outdir, f"ref-{k}.jsonl")
+        a = subprocess.run([binary, "refdump", str(run.seed), str(k * per), str(per), f], cwd=drv.VERIF, env=drv.env_offline())
+        if a.returncode != 0:
+            return {"error": f"refdump exit {a.returncode}"}
+        b = subprocess.run([sys.executable, os.path.join(drv.VERIF, "lib", "crosscheck_tomllib.py"), f], stdout=subprocess.PIPE, stderr=subprocess.PIPE, text=True)
+        os.unlink(f)
+        try:
+            return json.loads(b.stdout)
+        except ValueError:
+            return {"error": f"comparator failed: {b.stderr[-300:]}"}
+
+    with ThreadPoolExecutor(max_workers=16) as ex:
+        res = list(ex.map(one, range(chunks)))
+    tot = {"compared": 0, "agree_valid": 0, "agree_invalid": 0, "limit_or_u1_not_judged": 0, "disagreements": 0, "whitelisted": {}}
+    for r in res:
+        if "error" in r:
+            run.inconclusive.append(f"[crosscheck] {r['error']}")
+            continue
+        for k in ("compared", "agree_valid", "agree_invalid", "limit_or_u1_not_judged", "disagreements"):
+            tot[k] += r[k]
+        for k, v in r["whitelisted"].items():
+            tot["whitelisted"][k] = tot["whitelisted"].get(k, 0) + v
+        for s in r["samples"][:2]:
+            run.inconclusive.append(f"[crosscheck] reference decoder and tomllib disagree on text #{s['i']}: {s['what']} :: {s['text']!r}")
+    run.extra_cov["oracle_crosscheck_tomllib"] = tot
+    run.phases.append("oracle-crosscheck")
 
 
 def run(run, binary, drv):
@@ -6,4 +47,5 @@ def run(run, binary, drv):
     if run.tier == "thorough":
         import sanphase
 
+        crosscheck(run, binary, drv)
         sanphase.fuzz_phase(run, drv, binary, 900, "C01")
